@@ -68,13 +68,18 @@ func (b *BlueprintGenericSparseR1C[E]) Solve(s Solver[E], inst Instruction) erro
 		den := s.GetValue(c.QM, c.XB)
 		den = s.Add(den, u1)
 		den, ok = s.Inverse(den)
-		if !ok {
-			return errDivideByZero
-		}
 		v1 := s.GetValue(c.QR, c.XB)
 		v2 := s.GetValue(c.QO, c.XC)
 		num := s.Add(v1, v2)
 		num = s.Add(num, s.GetCoeff(c.QC))
+		if !ok {
+			// L has a zero coefficient, the gate does not depend on it: it is
+			// satisfied (by any L, we set 0 as the R1CS solver does) iff the
+			// other terms vanish, e.g. DivUnchecked(0, 0).
+			if !num.IsZero() {
+				return errDivideByZero
+			}
+		}
 		num = s.Mul(num, den)
 		num = s.Neg(num)
 		s.SetValue(c.XA, num)
@@ -83,15 +88,18 @@ func (b *BlueprintGenericSparseR1C[E]) Solve(s Solver[E], inst Instruction) erro
 		den := s.GetValue(c.QM, c.XA)
 		den = s.Add(den, u2)
 		den, ok = s.Inverse(den)
-		if !ok {
-			return errDivideByZero
-		}
 
 		v1 := s.GetValue(c.QL, c.XA)
 		v2 := s.GetValue(c.QO, c.XC)
 
 		num := s.Add(v1, v2)
 		num = s.Add(num, s.GetCoeff(c.QC))
+		if !ok {
+			// same as above for R
+			if !num.IsZero() {
+				return errDivideByZero
+			}
+		}
 		num = s.Mul(num, den)
 		num = s.Neg(num)
 		s.SetValue(c.XB, num)
